@@ -48,6 +48,19 @@ def witness_events():
             ['chg', [0], [1]], ['tick'], ['run', 1], ['run', 0], ['tick'], ['run', 0]]
 
 
+# A job whose own run id is LOWER than the only entries of one of its inputs
+# (overlap): _load must fall back to the highest run id, whatever it is.
+# settled first event (run 1); b changes (run 2), c executes under 2; a changes
+# (run 3) and reports; c reports (d's run id back to 2); d runs under 2 and has
+# no entry a@2: it must load a@3.
+HIGHER = {
+    'name': 'directed-higher-run', 'desc': VEE, 'targets': ['T1'],
+    'events': [['chg', [0, 1], [1]], ['tick'], ['run', 0], ['run', 0], ['tick'], ['run', 0], ['tick'], ['run', 0],
+               ['chg', [1], [1]], ['tick'], ['run', 0], ['tick'], ['chg', [0], [1]], ['tick'], ['run', 1], ['run', 0],
+               ['tick'], ['run', 0]],
+}
+
+
 def nl(xs):
     return '[' + '; '.join('%d' % int(x) for x in xs) + ']'
 
@@ -188,7 +201,7 @@ def study(ctx):
     ctx.trust('Flow.v + drive_flow.py correspondence (fakes: in-memory AE packages whose run() stores a canonical text of what was loaded, db socket hop short-circuited, lock stubs, fsm stub, md5sum/sha1sum answered by hashlib after the first real calls agreed)')
     ctx.assume('worker hand-out, archive trigger, failures, analyses/regressions and promotion are outside Model/Flow.v; the end-state theorem is about task-only engines with one value per algorithm')
     w = dict(WITNESS, events=witness_events())
-    cases = [w]
+    cases = [w, HIGHER]
     cases += gen_cases(ctx, ctx.n(2, 12), 'nonoverlap', 'flow-no')
     cases += gen_cases(ctx, ctx.n(1, 12), 'overlap', 'flow-ov')
     res = ctx.harness('drive_flow.py', {'cases': cases}, timeout=3000)['cases']
